@@ -213,3 +213,4 @@ m("no-mutex-txtooutputs", ["C09"], "wallet/createtx.go",
 m("no-mutex-newchangeaddress", ["C09"], "wallet/wallet.go",
   "	w.newAddrMtx.Lock()\n	defer w.newAddrMtx.Unlock()\n\n	var addr btcutil.Address\n	err = walletdb.Update(w.db, func(tx walletdb.ReadWriteTx) error {\n		addrmgrNs := tx.ReadWriteBucket(waddrmgrNamespaceKey)\n		var err error\n		addr, err = w.newChangeAddress(addrmgrNs, account, scope)",
   "	var addr btcutil.Address\n	err = walletdb.Update(w.db, func(tx walletdb.ReadWriteTx) error {\n		addrmgrNs := tx.ReadWriteBucket(waddrmgrNamespaceKey)\n		var err error\n		addr, err = w.newChangeAddress(addrmgrNs, account, scope)")
+
